@@ -143,6 +143,7 @@ fn sizes(p: &[TInd], o: &[TInd]) -> String {
 pub fn run(rep: &mut Report) {
     rep.alpha("operators DiscardOffspring, Merge, MuPlusLambda(mu), Generational(mu), RandomReplacement(mu), KeepBetterAtIndex; mu in 0..7");
     rep.alpha("parents and offspring: all sequences of length 0..S over objectives {0,1,2} with distinct tags, all sequences of length 1..2 over {0.0,-0.0,1e-17}, plus variants where the first offspring is an exact copy of the first parent; a sentinel population below both");
+    rep.alpha("the same operators on parent / offspring populations of 0..90 individuals with many tied objective values, mu from 1 to beyond the merged size, default generator streams of 48 (thorough 256) seeds");
     rep.assume("for RandomReplacement every generator word of the shuffle is a choice (menu words + default), all tapes over the first D draws");
     let thorough = rep.tier == Tier::Thorough;
     let (s, depth, menu): (usize, usize, &[u64]) = if thorough { (3, 5, &MENU8) } else { (2, 4, &MENU4) };
@@ -244,6 +245,51 @@ pub fn run(rep: &mut Report) {
     }
     part.require_outcomes(10);
     rep.push(part);
+
+    // populations far beyond the exhaustive bound (dozens of individuals, many ties): default generator
+    // streams of a number of seeds, same oracle
+    let mut part = Part::new("replacement.large-populations");
+    part.caps_hit.push("large populations are checked on default generator streams of a few dozen seeds, not exhaustively".to_string());
+    let nseeds: u64 = if thorough { 256 } else { 48 };
+    let sizes = [(20usize, 60usize), (40, 40), (33, 0), (64, 1), (10, 90), (70, 70), (0, 25)];
+    let jobs: Vec<(usize, usize)> = sizes.to_vec();
+    let subs: Vec<Part> = jobs
+        .par_iter()
+        .map(|&(np, no)| {
+            let mut sub = Part::new("x");
+            let p: Vec<TInd> = (0..np).map(|i| (i as u32, (i % 5) as f64)).collect();
+            let o: Vec<TInd> = (0..no).map(|i| (1000 + i as u32, (i % 7) as f64 * 0.5)).collect();
+            let total = np + no;
+            let mut reps = vec![Rep::DiscardOffspring, Rep::Merge];
+            if np == no {
+                reps.push(Rep::KeepBetterAtIndex);
+            }
+            for mu in [1usize, 2, 3, 20, 32, 65, total.saturating_sub(1), total, total + 3] {
+                reps.push(Rep::MuPlusLambda(mu as u32));
+                reps.push(Rep::Random(mu as u32));
+                reps.push(Rep::Generational(mu as u32));
+            }
+            for r in &reps {
+                let ns = if matches!(r, Rep::Random(_)) { nseeds } else { 1 };
+                for sd in 0..ns {
+                    let cfg = Cfg::prefix(&MENU4, 0, seed.wrapping_add(sd * 7919));
+                    let (out, _) = tape::run_once(&cfg, &[], || run_rep(r, &p, &o));
+                    sub.transitions += 1;
+                    sub.traces += 1;
+                    if let Some((sig, d)) = check(r, &p, &o, &out) {
+                        sub.violate(format!("{} large-population", sig), d.chars().take(600).collect::<String>(), json!({"rep": format!("{:?}", r), "large": [np, no], "tape": [], "menu": 4, "seed": seed.wrapping_add(sd * 7919)}));
+                    }
+                }
+                sub.states += 1;
+            }
+            sub.outcome(format!("{}+{}", np, no));
+            sub
+        })
+        .collect();
+    for x in subs {
+        part.absorb(x);
+    }
+    rep.push(part);
 }
 
 pub fn replay(case: &Value) -> Result<Vec<(String, String)>, String> {
@@ -262,6 +308,14 @@ pub fn replay(case: &Value) -> Result<Vec<(String, String)>, String> {
     } else {
         Rep::KeepBetterAtIndex
     };
+    if let Some(l) = case["large"].as_array() {
+        let (np, no) = (l[0].as_u64().unwrap_or(0) as usize, l[1].as_u64().unwrap_or(0) as usize);
+        let p: Vec<TInd> = (0..np).map(|i| (i as u32, (i % 5) as f64)).collect();
+        let o: Vec<TInd> = (0..no).map(|i| (1000 + i as u32, (i % 7) as f64 * 0.5)).collect();
+        let cfg = Cfg::prefix(&MENU4, 0, case["seed"].as_u64().unwrap_or(0));
+        let (out, _) = tape::run_once(&cfg, &[], || run_rep(&r, &p, &o));
+        return Ok(check(&r, &p, &o, &out).into_iter().map(|(s, d)| (format!("{} large-population", s), d)).collect());
+    }
     let pop = |v: &Value| -> Vec<TInd> { v.as_array().unwrap().iter().map(|x| (x[0].as_u64().unwrap() as u32, x[1].as_f64().unwrap())).collect() };
     let (p, o) = (pop(&case["parents"]), pop(&case["offspring"]));
     let tape: Vec<u32> = case["tape"].as_array().ok_or("no tape")?.iter().map(|x| x.as_u64().unwrap() as u32).collect();
